@@ -612,3 +612,77 @@ PROPERTIES["C15"] = {
             "in characters and TextForAttribute is called on it. Non-trivial: >= 2 '[' in the input.",
     "assumptions": [],
 }
+
+
+# ------------------------------------------------------------------ exprs (C02)
+def expr_projection(line):
+    res = sexp.parse(line)
+    if tag(res) != "res" or len(res) < 3:
+        return sexp.dump(res[:2]) if isinstance(res, list) else line
+    obs = [class_view(o) for o in res[2]]
+    return sexp.dump([obs, [r[1] for r in res[3]]] + ([["ast-mismatch"]] if len(res) > 4 else []))
+
+
+def expr_depth(e):
+    t = tag(e)
+    if t in ("neg", "not"):
+        return 1 + expr_depth(e[1])
+    if t == "bin":
+        return 1 + max(expr_depth(e[2]), expr_depth(e[3]))
+    if t == "fn":
+        return 1 + max([expr_depth(a) for a in e[2]] + [0])
+    return 0
+
+
+def expr_features(case):
+    body = case[7][1][0][2]
+    calls = [s for s in body if tag(s) == "call"]
+    depth = max([expr_depth(c[2][1]) for c in calls if len(c[2]) > 1] + [0])
+    ops = set()
+    def walk(e):
+        if tag(e) == "bin":
+            ops.add(str(e[1])); walk(e[2]); walk(e[3])
+        elif tag(e) in ("neg", "not"):
+            ops.add(tag(e)); walk(e[1])
+        elif tag(e) == "fn":
+            for a in e[2]:
+                walk(a)
+    for c in calls:
+        for a in c[2]:
+            walk(a)
+    labels = ["depth=%d" % min(depth, 7), "parens=%d" % case[9][5], "spelling=%d" % case[9][6]] + ["op:" + o for o in sorted(ops)]
+    return sexp.dump(case[7]), depth >= 3, labels
+
+
+_mk("exprs", expr_projection, expr_features)
+PROPERTIES["C02"] = {
+    "families": [("exprs", 260, 8000)],
+    "rule": "3-8 expressions per case, typed trees of depth 3-5 and flat chains of mixed-precedence operators associated "
+            "at random (printed with minimal, redundant or random extra parentheses and symbol/word/random operator "
+            "spellings), over literals, variables, built-ins and the logging probe p; 4% of sub-expressions ill-typed "
+            "or faulty. Each value reaches p(\"r<i>\", value) with its type; compared: error positions and the complete "
+            "probe log (order and count of calls, typed values as bit patterns). The implementation's parse of the "
+            "printed text must give back the generated tree. Non-trivial: expression depth >= 3.",
+    "assumptions": [],
+}
+
+
+# ------------------------------------------------------------------ random (C09)
+def random_oracle(case, obs, exp):
+    if tag(obs) == "differ":
+        return "violation", "the same script, seed and choices gave different runs: %s vs %s vs (child process) %s" % (
+            sexp.dump(obs[1])[:200], sexp.dump(obs[2])[:200], sexp.dump(obs[3])[:200])
+    return runner_oracle("random", "seeded run")(case, obs, exp)
+
+
+_mk("random", runner_projection(flow_view), runner_features(0, 3), random_oracle)
+PROPERTIES["C09"] = {
+    "families": [("random", 160, 4000)],
+    "rule": "programs using dice, random and random_range in lines, conditions, assignments and jump targets; seeds over "
+            "[0-9a-z]{1,14} (including seeds whose base-36 value wraps int64). The model is fed the first 64 raw values of "
+            "an independent rand.NewSource(seed integer derived by the harness's own reading of the rule), so every "
+            "random value is predicted exactly. Each case is executed twice in process with an unrelated seeded runner "
+            "in between and once in a fresh child process; all executions must be identical and equal to the model's "
+            "trace. Non-trivial: >= 3 Next calls.",
+    "assumptions": ["math/rand's generator (rngSource) is an oracle: only Intn/Int31n/Int63n/Float64 over its raw stream are modelled"],
+}
